@@ -117,7 +117,11 @@ Fixpoint bwalk (dem : bool) (n : node) (st : bst) {struct n} : bst * list site :
     let '(_, b) := walks dem body (binds (params_names ps) st1) in
     (st1, a ++ b)
   | SClassDef name _ _ => (bind name st, [])
-  | Other _ bs cs => walks dem cs (binds bs st)
+  | Other k bs cs =>
+    (* the name of `except E as name` is bound for the handler and unbound when the handler ends; the other binders
+       (match captures, ...) stay bound *)
+    let '(s1, x) := walks dem cs (binds bs st) in
+    if String.eqb k "ExceptHandler" then (fold_left (fun s b => unbind b s) bs s1, x) else (s1, x)
   end
 (* inside a spine, below its outermost node: slices and arguments are read, in positions the
    analyser is known not to look at (not demanded) *)
